@@ -15,10 +15,39 @@ import (
 )
 
 // C12 — validation treats its inputs as read-only.
-type c12 struct{ base }
+type c12 struct {
+	base
+	kept []c12Kept // inputs of earlier calls of this process, re-examined after later calls
+}
+
+// c12Kept is an input which a finished call left behind, with its snapshot: a recycled validator which kept an alias
+// into a caller's schema or instance writes into it during a LATER validation, when nobody looks at that call any more.
+type c12Kept struct {
+	what       string
+	live, snap any
+	text       string
+}
+
+func (p *c12) keep(what string, live, snap any) {
+	if len(p.kept) >= 64 {
+		p.kept = p.kept[1:]
+	}
+	p.kept = append(p.kept, c12Kept{what: what, live: live, snap: snap, text: jsonText(live)})
+}
+
+// recheck compares every kept input with its snapshot again.
+func (p *c12) recheck() *lib.Violation {
+	for _, k := range p.kept {
+		if after := jsonText(k.live); after != k.text || !reflect.DeepEqual(k.live, k.snap) {
+			p.kept = nil
+			return &lib.Violation{What: fmt.Sprintf("an input of an EARLIER call was modified by a later validation (%s): before=%s after=%s", k.what, k.text, after)}
+		}
+	}
+	return nil
+}
 
 func init() {
-	lib.Register(&c12{base{
+	lib.Register(&c12{base: base{
 		id: "C12", level: "exploration",
 		technique: "runtime snapshot monitor: before every call the instance, the ($ref-free) schema object, the raw bytes and the parsed specification are deep-snapshotted (independent second decoding + JSON text); after the call the live objects are compared with the snapshots by reflect.DeepEqual and by JSON text",
 		rule: "schema-level and parameter/header cases (17 of 18): $ref-free schemas with defaults from the draft-4 grammar x schema-derived and free instances through AgainstSchema, NewSchemaValidator with and without recycling, and parameter/header validators over typed slices; spec-level cases (1 of 18): generated clean specifications and accepted fixtures through Spec and SpecValidator.Validate in both continue-on-errors modes, comparing doc.Raw() bytes and, for accepted documents (the generator produces no self-referential definitions), the FULLY EXPANDED doc.Spec() computed on a deep copy before and after (the expander rewrites $ref nodes in place by design, which full expansion makes invisible, as the property's observation point says); distinct = FNV-64 of the inputs; non-trivial = the input contains a container (object/array/slice) the callee could write into and, for schemas, at least one default",
@@ -69,6 +98,17 @@ func hasContainer(v any) bool {
 }
 
 func (p *c12) Run(w *lib.Worker, idx int, r *lib.Rand) lib.Case {
+	c := p.run(w, idx, r)
+	if c.Viol == nil {
+		if v := p.recheck(); v != nil {
+			v.What += fmt.Sprintf(" [noticed after case %d]", idx)
+			c.Viol = v
+		}
+	}
+	return c
+}
+
+func (p *c12) run(w *lib.Worker, idx int, r *lib.Rand) lib.Case {
 	switch {
 	case idx%18 == 5:
 		return p.specCase(w, idx, r)
@@ -151,6 +191,11 @@ func (p *c12) Run(w *lib.Worker, idx int, r *lib.Rand) lib.Case {
 		}
 		if idx%30000 == 0 && mode == 0 {
 			c.Sample = sample
+		}
+		if mode%3 != 1 {
+			// the recycling entry points: what they leave in the pools may still point at these inputs
+			p.keep(fmt.Sprintf("schema of %s, case %d", name, idx), live, snapSchema)
+			p.keep(fmt.Sprintf("instance of %s, case %d", name, idx), liveVal, snapVal)
 		}
 	}
 	c.Tags = []string{"schema-level", boolTag("has-default", g.Features["default"]), boolTag("container-instance", hasContainer(inst))}
